@@ -27,6 +27,7 @@ def summarize_trace(trace, maxn=60):
         sl = s.get('sourceLocation', {})
         f = sl.get('file', '')
         if f.startswith('<') or lhs.startswith('__') or 'write_set' in lhs or '$' in lhs: continue
+        if f.startswith(VERIF) and not lhs.startswith('rp_'): continue   # spec/stub internals are noise; keep /repo lines and the harness
         v = s.get('value', {})
         out.append({'at': '%s:%s' % (f, sl.get('line')), 'fn': sl.get('function'), 'lhs': lhs, 'value': v.get('data', v.get('name'))})
     keep = [x for x in out[:-maxn] if x['lhs'].startswith('rp_')]
